@@ -255,6 +255,11 @@ def bookkeeping_errors(chunks, case, nlevels):
     return errs
 
 
+def rng_name(case):
+    """The superrun's name as given to define_run: strax accepts it with or without the leading underscore."""
+    return "sup" if case.get("define_shuffle", 0) % 2 else "_sup"
+
+
 def run_case(case):
     viol, cnt = [], {}
     feats = case["features"]
@@ -340,6 +345,30 @@ def run_case(case):
                     cnt["redefinitions_checked"] = 1
                     if st3.is_stored("_sup", tgt):
                         add("stale-superrun", f"after redefining _sup as {order[:-1]} the data stored for {order} is still reported available")
+                # the same redefinition through the LONG-LIVED context that made the data (its caches must not
+                # keep the old definition alive), with the name given with and without the leading underscore
+                if len(order) >= 2:
+                    alt = order[1:]
+                    st.define_run(rng_name(case), alt)
+                    cnt["redefinitions_checked"] = cnt.get("redefinitions_checked", 0) + 1
+                    try:
+                        stale = st.is_stored("_sup", tgt)
+                    except Exception as e:  # noqa: BLE001
+                        stale = False
+                        add("exception", f"is_stored after redefining _sup on the same context failed: {e!r}", e, where="redefined")
+                    if stale:
+                        add("stale-superrun", f"after define_run({rng_name(case)!r}, {alt}) on the context that made the data, the data "
+                                              f"stored for {order} is still reported available", redefinition="same_context")
+                    else:
+                        try:
+                            with common.quiet():
+                                got3 = st.get_array("_sup", tgt, progress_bar=False)
+                            ref3 = np.concatenate([sub[order.index(r)] for r in alt])
+                            if not (len(got3) == len(ref3) and got3.tobytes() == ref3.tobytes()):
+                                add("rows", f"after redefining _sup as {alt} on the same context it returns {got3['v0'].tolist()}, "
+                                            f"the subruns concatenate to {ref3['v0'].tolist()}", where="redefined")
+                        except Exception as e:  # noqa: BLE001
+                            add("exception", f"request after redefining _sup on the same context failed: {e!r}", e, where="redefined")
                 # same run ids, but only a time range of the first run
                 st4 = context(case, d)
                 a0, b0 = case["ext"][order[0]]
